@@ -102,6 +102,10 @@ func (a *Array) MarshalJSONBuffer(dst []byte) ([]byte, error) {
 			return nil, err
 		}
 		if t == TypeNone {
+			if i.t == TagArrayEnd {
+				// Empty array (or all elements deleted): AdvanceIter consumed the end tag.
+				return append(dst, ']'), nil
+			}
 			break
 		}
 		dst, err = elem.MarshalJSONBuffer(dst)
